@@ -1,4 +1,5 @@
 import Imdlv.Lemmas.ByteSize
+import Imdlv.Lemmas.ByteSizeFrac
 /-!
 # C16 — byte-size notation is parsed exactly and printed consistently
 
@@ -57,6 +58,108 @@ theorem parse_integer_exact (n mult : Nat) (u : List Char)
   congr 1
   unfold u64Max
   omega
+
+/-- a digit string, a dot, a digit string: read as one number over a power of ten -/
+theorem parseDecimal_frac (ip fp : List Char) (hip : ip.all isDigitCh = true) (hfp : fp.all isDigitCh = true)
+    (hne : ¬ (ip = [] ∧ fp = [])) :
+    parseDecimal (ip ++ '.' :: fp) = some (digitsVal (ip ++ fp), fp.length) := by
+  have h := takeWhile_all isDigitCh ip ('.' :: fp) hip (by
+    intro x hx
+    simp only [List.head?_cons, Option.mem_def, Option.some.injEq] at hx
+    subst hx; decide)
+  unfold parseDecimal
+  rw [h.1, h.2]
+  have hemp : (ip.isEmpty && fp.isEmpty) = false := by
+    cases ip with
+    | nil =>
+      cases fp with
+      | nil => exact absurd ⟨rfl, rfl⟩ hne
+      | cons _ _ => rfl
+    | cons _ _ => rfl
+  simp [hfp, hemp]
+
+/-- **Decimal fractions scale the same way, truncated to whole bytes**: digits `ip`, a dot, digits
+`fp` (not both empty) and any spelling `u` of a unit with multiplier `mult` denote exactly
+`⌊N · mult / 10^d⌋` — `N` the digits read as one number, `d` the number of decimals — whenever
+`N · mult < 2^52`. The double-precision detour (round `N/10^d` to 53 bits, multiply, cast) never
+reaches the neighbouring integer. -/
+theorem parse_fraction_trunc (ip fp u : List Char) (mult : Nat)
+    (hip : ip.all isDigitCh = true) (hfp : fp.all isDigitCh = true) (hne : ¬ (ip = [] ∧ fp = []))
+    (hu : ∀ c ∈ u, isNumCh c = false)
+    (hl : lookupSuffix (u.map lowerAscii) Consts.suffixTable = some mult)
+    (hfit : digitsVal (ip ++ fp) * mult < 2 ^ 52) :
+    parseBytes (ip ++ '.' :: fp ++ u) = .ok (digitsVal (ip ++ fp) * mult / 10 ^ fp.length) := by
+  -- split number from unit
+  have hall : (ip ++ '.' :: fp).all isNumCh = true := by
+    rw [List.all_append, List.all_cons]
+    have a1 : ip.all isNumCh = true := by
+      rw [List.all_eq_true] at hip ⊢
+      intro c hc; simp [isNumCh, hip c hc]
+    have a2 : fp.all isNumCh = true := by
+      rw [List.all_eq_true] at hfp ⊢
+      intro c hc; simp [isNumCh, hfp c hc]
+    simp [a1, a2, isNumCh]
+  have hhead : ∀ x ∈ u.head?, isNumCh x = false := by
+    intro x hx
+    cases u with
+    | nil => simp at hx
+    | cons a t => simp at hx; subst hx; exact hu _ (by simp)
+  have hsplit := takeWhile_all isNumCh (ip ++ '.' :: fp) u hall hhead
+  have hassoc : ip ++ '.' :: fp ++ u = (ip ++ '.' :: fp) ++ u := by simp
+  obtain ⟨ht, hd⟩ := hsplit
+  have hp2 : isPow2 mult = true := by
+    have hm := lookupSuffix_mem _ _ _ hl
+    exact List.all_eq_true.mp table_all_pow2 _ hm
+  have hmult := isPow2_spec mult hp2
+  generalize hk : Nat.log2 mult = k at hmult
+  generalize hN : digitsVal (ip ++ fp) = N at hfit ⊢
+  generalize hdd : fp.length = d
+  have hD : 0 < 10 ^ d := Nat.pow_pos (by omega)
+  unfold parseBytes
+  simp only [ht, hd, parseDecimal_frac ip fp hip hfp hne, hN, hdd, hl]
+  by_cases hN0 : N = 0
+  · -- zero
+    subst hN0
+    simp [rn53, scaleToU64, hp2, floorScaled_zero, u64Max]
+  · have hNpos : 0 < N := by omega
+    have hmpos : 0 < mult := by rw [hmult]; exact Nat.two_pow_pos _
+    have hNlt : N < 2 ^ 52 := by
+      have : N * 1 ≤ N * mult := Nat.mul_le_mul_left N hmpos
+      omega
+    obtain ⟨s, hs0, he, hq52, hm, hex⟩ := rn53_small_value N (10 ^ d) hNpos hD hNlt
+    unfold scaleToU64
+    simp only [hp2, if_true, he, hk]
+    -- k < s: otherwise the quotient could not reach 2^52
+    have hks : k < s := by
+      apply Classical.byContradiction
+      intro hc
+      have hle : s ≤ k := by omega
+      have h1 : N * 2 ^ s / 10 ^ d ≤ N * 2 ^ s := Nat.div_le_self _ _
+      have h2 : N * 2 ^ s ≤ N * 2 ^ k := Nat.mul_le_mul_left _ (Nat.pow_le_pow_right (by omega) hle)
+      rw [hmult] at hfit
+      omega
+    -- floorScaled m (-s + k) = m / 2^(s-k)
+    have hfs : floorScaled (rn53 N (10 ^ d)).1 (-(s : Int) + (k : Int)) = (rn53 N (10 ^ d)).1 / 2 ^ (s - k) := by
+      unfold floorScaled
+      have hneg : ¬ (-(s : Int) + (k : Int) ≥ 0) := by omega
+      have htn : (-(-(s : Int) + (k : Int))).toNat = s - k := by omega
+      simp only [hneg, if_false, htn]
+    rw [hfs]
+    -- apply the arithmetic core with A = N * mult, P = 2^(s-k)
+    have hsplit2 : N * 2 ^ s = N * mult * 2 ^ (s - k) := by
+      rw [hmult, Nat.mul_assoc, ← Nat.pow_add]; congr 2; omega
+    rw [hsplit2] at hq52 hm hex
+    have hPgt : 10 ^ d < 2 ^ (s - k) := by
+      have h1 : N * mult * 2 ^ (s - k) / 10 ^ d * 10 ^ d ≤ N * mult * 2 ^ (s - k) := Nat.div_mul_le_self _ _
+      have h2 : 2 ^ 52 * 10 ^ d ≤ N * mult * 2 ^ (s - k) := Nat.le_trans (Nat.mul_le_mul_right _ hq52) h1
+      have h3 : N * mult * 2 ^ (s - k) < 2 ^ 52 * 2 ^ (s - k) := Nat.mul_lt_mul_of_pos_right hfit (Nat.two_pow_pos _)
+      have h4 : 2 ^ 52 * 10 ^ d < 2 ^ 52 * 2 ^ (s - k) := Nat.lt_of_le_of_lt h2 h3
+      exact Nat.lt_of_mul_lt_mul_left h4
+    rw [frac_floor (N * mult) (10 ^ d) (2 ^ (s - k)) _ hD hPgt hm hex]
+    congr 1
+    have : N * mult / 10 ^ d ≤ N * mult := Nat.div_le_self _ _
+    unfold u64Max
+    omega
 
 /-- unknown suffix ⇒ rejected -/
 theorem parse_rejects_unknown_suffix (text : List Char)
@@ -182,5 +285,9 @@ example : parseBytes "1.0.0foo".toList = .error .number := by decide +kernel
 example : natChars' 12 ++ ['K','i','B'] = "12KiB".toList := by decide +kernel
 example : displayBytes 1572864 = "1.5 MiB".toList := by decide +kernel
 example : displayBytes 1 = "1 byte".toList := by decide +kernel
+
+/-- `1.5KiB` is 1536 bytes, `0.3kib` is ⌊307.2⌋ = 307 (model evaluation, kernel-checked) -/
+example : parseBytes "1.5KiB".toList = .ok 1536 ∧ parseBytes "0.3kib".toList = .ok 307 ∧ parseBytes "2.999999mib".toList = .ok 3145726 := by
+  decide +kernel
 
 end Imdlv.C16
